@@ -278,14 +278,21 @@ Section Multi.
       - intros w Cw. apply L. now apply in_play_conn.
     Qed.
 
-    Lemma next_cc_good : good_cc t' (next_cc nodes edges t t' cc).
+    (* any table that labels exactly the in-play nodes with their in-play component minima can be
+       unioned with the stable rows *)
+    Definition inner_ok (inner : list (Z * Z)) : Prop :=
+      NoDup (map fst inner) /\
+      forall v c, In (v, c) inner <-> In v nip /\ c = comp_min nip E' v.
+
+    Lemma union_good inner : inner_ok inner -> good_cc t' (sn ++ inner).
     Proof.
-      unfold next_cc. fold cep. fold st. fold sn. fold nip. fold eip. split.
-      - rewrite map_app, cluster_spec_keys. apply NoDup_app_intro.
+      intros [IN II]. split.
+      - rewrite map_app. apply NoDup_app_intro.
         + unfold sn, stable_nodes. apply NoDup_map_filter. apply Hcc.
-        + unfold nip, nodes_in_play. now apply NoDup_filter.
-        + intros v H1 H2. apply nip_in in H2. tauto.
-      - intros v c. rewrite in_app_iff, cluster_spec_in. split.
+        + exact IN.
+        + intros v H1 H2. apply in_map_iff in H2. destruct H2 as [[v' c] [Ev Hin]]. cbn in Ev. subst v'.
+          apply II in Hin. destruct Hin as [Hn _]. apply nip_in in Hn. tauto.
+      - intros v c. rewrite in_app_iff, II. split.
         + intros [Hs|[Hv ->]]; [now apply stable_unchanged|].
           split; [apply nip_in in Hv; tauto|now apply in_play_comp].
         + intros [Hv ->]. destruct (in_dec Z.eq_dec v (map fst sn)) as [Hin|Hnin].
@@ -293,6 +300,39 @@ Section Multi.
             destruct (stable_unchanged v c Hs) as [_ <-]. exact Hs.
           * right. assert (In v nip) by (apply nip_in; tauto). split; [assumption|].
             symmetry. now apply in_play_comp.
+    Qed.
+
+    Lemma next_cc_good : good_cc t' (next_cc nodes edges t t' cc).
+    Proof.
+      unfold next_cc. fold cep. fold st. fold sn. fold nip. fold eip. apply union_good. split.
+      - rewrite cluster_spec_keys. unfold nip, nodes_in_play. now apply NoDup_filter.
+      - intros v c. apply cluster_spec_in.
+    Qed.
+
+    (* the in-play tables satisfy the hypotheses of C05 *)
+    Lemma nip_hyps : NoDup nip /\ closed_edges nip E' /\
+                     (forall a b p, In (a, b, p) eip -> In a nip /\ In b nip).
+    Proof.
+      split; [unfold nip, nodes_in_play; now apply NoDup_filter|]. split.
+      - intros a b H. apply Et_in in H. destruct H as [p [H _]]. apply eip_in in H. tauto.
+      - intros a b p H. apply eip_in in H. tauto.
+    Qed.
+
+    (* hence the C05 loop model can be used for the inner call: it terminates and gives the same rows *)
+    Lemma next_cc_lm_good :
+      exists cc', next_cc_lm nodes edges t t' cc = Some cc' /\ good_cc t' cc' /\
+                  forall v c, In (v, c) cc' <-> In (v, c) (next_cc nodes edges t t' cc).
+    Proof.
+      unfold next_cc_lm. fold cep. fold st. fold sn. fold nip. fold eip.
+      destruct nip_hyps as (_ & CL & _).
+      destruct (solve_cc_total nip E' CL) as [out [Hout G]].
+      unfold cluster_at_threshold. rewrite Hout. exists (sn ++ out). split; [reflexivity|].
+      assert (OK : inner_ok out).
+      { pose proof G as (ND & Hin & Hm). split; [exact ND|]. intros v c. split.
+        - intros H. eapply good_output_comp_min; [exact G|exact H].
+        - intros [Hv ->]. apply good_output_row; [exact G|exact Hv]. }
+      pose proof (union_good out OK) as G1. split; [exact G1|].
+      intros v c. destruct G1 as [_ G1]. destruct next_cc_good as [_ G2]. now rewrite G1, G2.
     Qed.
   End Step.
 
@@ -326,6 +366,46 @@ Section Multi.
   Proof.
     intros Hin. apply sortQ_in in Hin. rewrite <- multi_keys in Hin. apply in_map_iff in Hin.
     destruct Hin as [[t0 cc] [Eq H]]. cbn in Eq. subst t0. eauto.
+  Qed.
+
+  (* ---- the routine with the C05 loop model for every inner clustering call ---- *)
+  Lemma good_cc_ext t cc1 cc2 :
+    good_cc t cc1 -> NoDup (map fst cc2) -> (forall v c, In (v, c) cc2 <-> In (v, c) cc1) -> good_cc t cc2.
+  Proof. intros [_ G] ND H. split; [exact ND|]. intros v c. now rewrite H. Qed.
+
+  Lemma multi_loop_lm_good ts : forall t cc,
+    sortedQ (t :: ts) -> good_cc t cc ->
+    exists r, multi_loop_lm nodes edges t cc ts = Some r /\ map fst r = ts /\
+              forall t'' cc'', In (t'', cc'') r -> good_cc t'' cc''.
+  Proof.
+    induction ts as [|t' rest IH]; intros t cc Hs Hg; cbn [multi_loop_lm].
+    - exists []. split; [reflexivity|]. split; [reflexivity|]. intros ? ? [].
+    - inversion Hs; subst.
+      destruct (next_cc_lm_good t t' cc H1 Hg) as (cc' & E & G' & _). rewrite E.
+      destruct (IH t' cc' H3 G') as (r & Er & Kr & Gr). rewrite Er.
+      exists ((t', cc') :: r). split; [reflexivity|]. split; [cbn; now rewrite Kr|].
+      intros t'' cc'' [Eq|Hin]; [injection Eq as <- <-; exact G'|now apply Gr].
+  Qed.
+
+  Hypothesis rows_closed : forall a b p, In (a, b, p) edges -> In a nodes /\ In b nodes.
+
+  Theorem multi_lm_good ts :
+    exists r, multi_lm nodes edges ts = Some r /\ map fst r = sortQ ts /\
+              forall t cc, In (t, cc) r -> good_cc t cc.
+  Proof.
+    unfold multi_lm. pose proof (sortQ_sorted ts) as Hs. destruct (sortQ ts) as [|t0 rest].
+    - exists []. split; [reflexivity|]. split; [reflexivity|]. intros ? ? [].
+    - assert (CL : closed_edges nodes (Et t0)).
+      { intros a b H. apply Et_in in H. destruct H as [p [H _]]. eapply rows_closed; eauto. }
+      destruct (solve_cc_total nodes (Et t0) CL) as [cc0 [H0 G0]].
+      unfold cluster_at_threshold. fold (Et t0). rewrite H0.
+      assert (G : good_cc t0 cc0).
+      { pose proof G0 as (ND & Hin & Hm). split; [exact ND|]. intros v c. split.
+        - intros H. eapply good_output_comp_min; [exact G0|exact H].
+        - intros [Hv ->]. apply good_output_row; [exact G0|exact Hv]. }
+      destruct (multi_loop_lm_good rest t0 cc0 Hs G) as (r & Er & Kr & Gr). rewrite Er.
+      exists ((t0, cc0) :: r). split; [reflexivity|]. split; [cbn; now rewrite Kr|].
+      intros t cc [Eq|Hin]; [injection Eq as <- <-; exact G|now apply Gr].
   Qed.
 
   (* ---- summary statistics ---- *)
